@@ -39,7 +39,7 @@ TRUST = [
 ]
 ASSUMPTIONS = [
     "a call that raises ends the history (the property speaks about sequences of calls that each returned normally); state after a raise is not compared",
-    "c15_invariant assumes OptSpec of optimise_segment_groups (it preserves segments, group order, include sets and every resolved set: C14's theorem) — proved here for the identity and sampled for the real function by correspondence",
+    "c15_partial is stated for every optimise_segment_groups meeting OptSpec (segments, group positions/ids, include sets and every resolved set kept: C14's statement); c15_optimise_meets_spec proves it for the model's own function (shipped and C14-repaired loop), the real function is tied to that by correspondence",
     "theorem hypotheses: the parent passed is a segment of the cell, use_convention=True (property's quantifier); "
     "OneTypePerGroup and UserGroupNamesFresh exclude the two open findings",
     "segment ids are naturals, group ids NmlIds, fractions multiples of 1/4",
